@@ -48,7 +48,7 @@ func checkC18(w *World, r *Report) {
 						mut, why, pos = true, "element store into the given slice", x.Pos()
 					}
 				case *ssa.Call:
-					if bi, ok := x.Call.Value.(*ssa.Builtin); ok && bi.Name() == "append" && eff.rootsOf(x.Call.Args[0]).params[1] {
+					if bi, ok := x.Call.Value.(*ssa.Builtin); ok && nm(bi) == "append" && eff.rootsOf(x.Call.Args[0]).params[1] {
 						mut, why, pos = true, "append to the given slice (may write into its spare capacity)", x.Pos()
 					}
 				}
@@ -334,7 +334,7 @@ func checkC18(w *World, r *Report) {
 			}
 			for _, b := range f.Blocks {
 				for _, in := range b.Instrs {
-					if c, ok := in.(ssa.CallInstruction); ok && c.Common().IsInvoke() && c.Common().Method.Name() == "DefaultChildren" {
+					if c, ok := in.(ssa.CallInstruction); ok && c.Common().IsInvoke() && nm(c.Common().Method) == "DefaultChildren" {
 						callers = append(callers, f.Name())
 					}
 				}
@@ -394,7 +394,7 @@ func checkC18(w *World, r *Report) {
 		if len(dfd.Body.List) >= 1 {
 			if is, isIf := dfd.Body.List[0].(*ast.IfStmt); isIf {
 				if ce, isC := ast.Unparen(is.Cond).(*ast.CallExpr); isC {
-					if c := calleeOf(p, ce); c != nil && c.Name() == "Mandatory" {
+					if c := calleeOf(p, ce); c != nil && nm(c) == "Mandatory" {
 						suppress = true
 					}
 				}
@@ -482,13 +482,13 @@ func c18Classifiers(w *World, r *Report) {
 			switch x := in.(type) {
 			case *ssa.MapUpdate:
 				if mt, ok := x.Map.Type().Underlying().(*types.Map); ok {
-					if n, ok := mt.Elem().(*types.Named); ok && n.Obj().Name() == "Node" {
+					if n, ok := mt.Elem().(*types.Named); ok && nm(n.Obj()) == "Node" {
 						return true
 					}
 				}
 			case *ssa.Call:
 				if g := x.Call.StaticCallee(); g != nil {
-					return g.Name() == "appendMandatoryError" || g.Name() == "hasMandatoryChildren"
+					return nm(g) == "appendMandatoryError" || nm(g) == "hasMandatoryChildren"
 				}
 			}
 			return false
@@ -599,7 +599,7 @@ func c18Classifiers(w *World, r *Report) {
 						continue
 					}
 					if call, ok := a.v.(*ssa.Call); ok && call.Call.IsInvoke() {
-						switch call.Call.Method.Name() {
+						switch nm(call.Call.Method) {
 						case "Mandatory", "Presence":
 							env[a.key] = av.b
 							continue
@@ -610,7 +610,7 @@ func c18Classifiers(w *World, r *Report) {
 						for _, side := range []ssa.Value{bo.X, bo.Y} {
 							if fl, ok := side.(*ssa.Field); ok {
 								st := fl.X.Type().Underlying().(*types.Struct)
-								if st.Field(fl.Field).Name() == "Min" {
+								if nm(st.Field(fl.Field)) == "Min" {
 									isMin = true
 								}
 							}
